@@ -167,25 +167,27 @@ Theorem C10_array_nonvacuous : forall o,
 Proof. exact roundtrip_array_example. Qed.
 
 (* ARRAYS AMONG OTHER VALUES (recogniser half): a text made of items (values,
-   "NxV", range tails - as in C10_compressed_reads_partial) and non-empty arrays
-   "[" items "]" in any order, separated by any white space, is counted and
-   scanned to the expected slots, PROVIDED NO RANGE TAIL "b ... c" DIRECTLY
-   FOLLOWS AN ARRAY (m_ok with the context None = "the element before was an
-   array" demands is_tail = false).  That exclusion is the finding class
-   range-after-array, the predicate of its classifier (a closing bracket, white
-   space, one token, white space, "..."): the checker looks for the tail's left
-   neighbour in the TEXT of the array (and finds an ellipsis inside it), the
-   scanner in the slots before. *)
+   "NxV", range tails - as in C10_compressed_reads_partial), arrays "[" items "]"
+   (also "[]") and repetitions of arrays "Nx[" items "]" in any order, separated
+   by any white space, is counted and scanned to the expected slots.  The only
+   exclusion (m_ok in the context CArr q, aft_ok): A RANGE TAIL "b ... c" DIRECTLY
+   AFTER AN ARRAY WHOSE LAST VALUE q HAS THE TAIL'S TYPE AND DIFFERS FROM b.  The
+   checker takes the array as a whole for the left neighbour (none: unit step),
+   the scanner the slot before it - the array's last value (step b - q).  That is
+   the finding class range-after-array for hand-written text (D25,
+   "[1 31 36] 4 ... -1"); the printer never writes it (it elides the tail's
+   first value only when the previous value has another type or equals b). *)
 Theorem C10_mixed_reads_partial : forall (dec2f dec2d : list Z -> Z) ms T,
-  mseq dec2f dec2d (Some None) ms T ->
+  mseq dec2f dec2d (CItem None) ms T ->
   count_printed_arg_vals dec2f dec2d T = Ok (true, Z.of_nat (length (mslots ms))) /\
   scan_arg_vals dec2f dec2d T (Z.of_nat (length (mslots ms))) = Ok (mslots ms, []).
 Proof. exact mseq_reads. Qed.
 
-(* non-vacuity: "[1 ... 6 9] true 3 ... 7" *)
+(* non-vacuity: "[1 ... 6 9] 9 ... 13 true 3x[]" (a tail directly after an array) *)
 Theorem C10_mixed_nonvacuous : forall (dec2f dec2d : list Z -> Z),
-  exists T, mseq dec2f dec2d (Some None) ex_mixed T /\
-            T = [91; 49; 32; 46; 46; 46; 32; 54; 32; 57; 93; 32; 116; 114; 117; 101; 32; 51; 32; 46; 46; 46; 32; 55].
+  exists T, mseq dec2f dec2d (CItem None) ex_mixed T /\
+            T = [91; 49; 32; 46; 46; 46; 32; 54; 32; 57; 93; 32; 57; 32; 46; 46; 46; 32; 49; 51; 32;
+                 116; 114; 117; 101; 32; 51; 120; 91; 93].
 Proof. exact mixed_example. Qed.
 
 (* the text forms the printer uses with compression on - values, repetitions
